@@ -424,3 +424,7 @@ Example exc_negzero :
     PrimFloat.get_sign (im (nth 0 (nth 1 evs []) (@zero (CArith SAF)))) = false /\
     PrimFloat.get_sign (-0)%float = true.
 Proof. do 3 eexists. split; [vm_compute; reflexivity|]. repeat split; vm_compute; reflexivity. Qed.
+
+(* named constants for the pinned statements *)
+Definition exc_x2 : list cf := [Cf 0x1.ffffffff2419p-1 (-1.25); Cf 3 0.75].
+Definition exc_xneg : list cf := [Cf 0.5 (-0); Cf 3 0.75].
